@@ -24,7 +24,7 @@ theorem drainRest_length_le (b : Body) : (drainRest b).length ≤ b.length := by
   | nil => simp [drainRest, skipAwaits]
   | cons x r ih =>
     cases x with
-    | await => simp only [drainRest, skipAwaits] at ih ⊢; simp only [List.length_cons]; omega
+    | await bb => simp only [drainRest, skipAwaits] at ih ⊢; simp only [List.length_cons]; omega
     | value v => simp [drainRest, skipAwaits]
 
 theorem values_skipAwaits (b : Body) : values (skipAwaits b) = values b := by
@@ -50,13 +50,13 @@ theorem sendInnerLoop_spec (rest : Body) : ∀ (fuel pulled : Nat) (stopped : Bo
     | succ f =>
       cases x with
       | value v => simp [sendInnerLoop, getOneValue, drainRest, drainItem, skipAwaits]
-      | await =>
+      | await bb =>
         have hl := drainRest_length_le r
         simp only [List.length_cons] at h
         simp only [sendInnerLoop, getOneValue]
         rw [ih f (pulled + 1) stopped lastTask futs (by omega)]
-        have e1 : drainRest (.await :: r) = drainRest r := by simp [drainRest, skipAwaits]
-        have e2 : drainItem (.await :: r) = drainItem r := by simp [drainItem, skipAwaits]
+        have e1 : drainRest (.await bb :: r) = drainRest r := by simp [drainRest, skipAwaits]
+        have e2 : drainItem (.await bb :: r) = drainItem r := by simp [drainItem, skipAwaits]
         simp only [e1, e2, List.length_cons]
         congr 2
         omega
@@ -67,10 +67,67 @@ theorem sendInner_spec (rest : Body) (pulled : Nat) (stopped : Bool) (lastTask :
         stopped || drainItem rest == .endMarker, lastTask, futs⟩, drainItem rest) :=
   sendInnerLoop_spec rest _ pulled stopped lastTask futs (Nat.lt_succ_self _)
 
+theorem sendInner_await (bb : Bool) (r : Body) (pulled : Nat) (stopped : Bool) (lt : Option LastRef) (futs : List Fut) :
+    sendInner ⟨.await bb :: r, pulled, stopped, lt, futs⟩ = sendInner ⟨r, pulled + 1, stopped, lt, futs⟩ := by
+  simp [sendInner, sendInnerLoop, getOneValue]
+
+/-- running a task as far as it gets without a flush: either it is done, exactly as `_send_inner` run to its end would
+    be, or it is parked having consumed awaits only - `last_task` and the caller's futures untouched, and running it
+    to its end from there gives what running it to its end from the start gives -/
+theorem startLoop_spec (rest : Body) : ∀ (fuel pulled : Nat) (stopped : Bool) (lt : Option LastRef)
+    (futs : List Fut), rest.length < fuel →
+    (∀ s1 x, startLoop fuel ⟨rest, pulled, stopped, lt, futs⟩ = (s1, some x) →
+        sendInner ⟨rest, pulled, stopped, lt, futs⟩ = (s1, x)) ∧
+    (∀ s1, startLoop fuel ⟨rest, pulled, stopped, lt, futs⟩ = (s1, none) →
+        s1.lastTask = lt ∧ s1.futs = futs ∧ sendInner s1 = sendInner ⟨rest, pulled, stopped, lt, futs⟩) := by
+  induction rest with
+  | nil =>
+    intro fuel pulled stopped lt futs h
+    cases fuel with
+    | zero => simp at h
+    | succ f => simp [startLoop, sendInner, sendInnerLoop, getOneValue]
+  | cons x r ih =>
+    intro fuel pulled stopped lt futs h
+    cases fuel with
+    | zero => simp at h
+    | succ f =>
+      simp only [List.length_cons] at h
+      cases x with
+      | value v => simp [startLoop, sendInner, sendInnerLoop, getOneValue]
+      | await bb =>
+        rw [sendInner_await]
+        cases bb with
+        | true =>
+          simp only [startLoop, getOneValue]
+          refine ⟨by simp, ?_⟩
+          intro s1 h1
+          simp only [Prod.mk.injEq, and_true] at h1
+          subst h1
+          exact ⟨rfl, rfl, rfl⟩
+        | false =>
+          simp only [startLoop, getOneValue]
+          exact ih f (pulled + 1) stopped lt futs (by omega)
+
+theorem startTask_spec (b : Bool) (rest : Body) (pulled : Nat) (stopped : Bool) (lt : Option LastRef) (futs : List Fut) :
+    (∀ s1 x, startTask ⟨rest, pulled, stopped, lt, futs⟩ b = (s1, some x) →
+        sendInner ⟨rest, pulled, stopped, lt, futs⟩ = (s1, x)) ∧
+    (∀ s1, startTask ⟨rest, pulled, stopped, lt, futs⟩ b = (s1, none) →
+        s1.lastTask = lt ∧ s1.futs = futs ∧ sendInner s1 = sendInner ⟨rest, pulled, stopped, lt, futs⟩) := by
+  cases b with
+  | true =>
+    simp only [startTask, if_true]
+    refine ⟨by simp, ?_⟩
+    intro s1 h1
+    simp only [Prod.mk.injEq, and_true] at h1
+    subst h1
+    exact ⟨rfl, rfl, rfl⟩
+  | false =>
+    simpa [startTask] using startLoop_spec rest (rest.length + 1) pulled stopped lt futs (Nat.lt_succ_self _)
+
 /-- `blocked` only looks at `last_task` and the futures -/
 def blockedBy (lt : Option LastRef) (futs : List Fut) : Bool :=
   match lt with
-  | some (.handle k) => (match futs[k]? with | some .pending => true | _ => false)
+  | some (.handle k) => (match futs[k]? with | some (.pending _) => true | _ => false)
   | _ => false
 
 theorem blocked_eq (s : St) : s.blocked = blockedBy s.lastTask s.futs := rfl
@@ -93,9 +150,9 @@ theorem dropValues_succ_await (n : Nat) (b : Body) :
   | nil => simp [dropValues, drainItem, skipAwaits]
   | cons x r ih =>
     cases x with
-    | await =>
-      have e1 : drainRest (.await :: r) = drainRest r := by simp [drainRest, skipAwaits]
-      have e2 : drainItem (.await :: r) = drainItem r := by simp [drainItem, skipAwaits]
+    | await bb =>
+      have e1 : drainRest (.await bb :: r) = drainRest r := by simp [drainRest, skipAwaits]
+      have e2 : drainItem (.await bb :: r) = drainItem r := by simp [drainItem, skipAwaits]
       simp only [dropValues, e1, e2, ih]
     | value v => simp [dropValues, drainItem, drainRest, skipAwaits]
 
@@ -107,7 +164,7 @@ theorem dropValues_length_le (n : Nat) (b : Body) : (dropValues n b).length ≤ 
     | zero => simp [dropValues]
     | succ m =>
       cases x with
-      | await => have := ih (m + 1); simp only [dropValues, List.length_cons]; omega
+      | await bb => have := ih (m + 1); simp only [dropValues, List.length_cons]; omega
       | value v => have := ih m; simp only [dropValues, List.length_cons]; omega
 
 /-- one loop trip from a state in which the previous task is computed -/
@@ -121,9 +178,9 @@ theorem pull_value (v : Nat) (r : Body) (pulled : Nat) (lt : Option LastRef) (fu
     pull ⟨.value v :: r, pulled, false, lt, futs⟩ = (⟨r, pulled + 1, false, lt, futs⟩, .ok (.val v)) := by
   simp [pull, send, blocked_eq, hb, getOneValue]
 
-theorem pull_await (r : Body) (pulled : Nat) (lt : Option LastRef) (futs : List Fut)
+theorem pull_await (bb : Bool) (r : Body) (pulled : Nat) (lt : Option LastRef) (futs : List Fut)
     (hb : blockedBy lt futs = false) :
-    pull ⟨.await :: r, pulled, false, lt, futs⟩ =
+    pull ⟨.await bb :: r, pulled, false, lt, futs⟩ =
       (⟨drainRest r, pulled + 1 + (r.length - (drainRest r).length), drainItem r == .endMarker,
         some .internal, futs⟩, .ok (drainItem r)) := by
   simp [pull, send, blocked_eq, hb, getOneValue, sendInner_spec]
@@ -159,7 +216,7 @@ theorem listLoop_spec : ∀ (fuel : Nat) (rest : Body) (pulled : Nat) (stopped :
         refine ⟨lt', p', ?_, by simp only [List.length_cons]; omega, h2⟩
         simp only [listLoop, pull_value _ _ _ _ _ hb, h1, values]
         simp
-      | await =>
+      | await bb =>
         have hl := drainRest_length_le r
         cases hd : drainItem r with
         | endMarker =>
@@ -167,14 +224,14 @@ theorem listLoop_spec : ∀ (fuel : Nat) (rest : Body) (pulled : Nat) (stopped :
           obtain ⟨lt', p', h1, hp, h2⟩ := ih [] (pulled + 1 + (r.length - (drainRest r).length)) true
             (some .internal) futs data (blockedBy_internal futs) (by simp) (by simp; omega)
           refine ⟨lt', p', ?_, by simp only [hr, List.length_cons, List.length_nil] at hp ⊢; omega, h2⟩
-          simp only [listLoop, pull_await _ _ _ _ hb, hd, hr] at h1 ⊢
+          simp only [listLoop, pull_await _ _ _ _ _ hb, hd, hr] at h1 ⊢
           simp only [show ((Item.endMarker == Item.endMarker) = true) from rfl, h1, values, hv]
         | val v =>
           have hv := drainItem_val r v hd
           obtain ⟨lt', p', h1, hp, h2⟩ := ih (drainRest r) (pulled + 1 + (r.length - (drainRest r).length)) false
             (some .internal) futs (data ++ [.val v]) (blockedBy_internal futs) (by simp) (by omega)
           refine ⟨lt', p', ?_, by simp only [List.length_cons]; omega, h2⟩
-          simp only [listLoop, pull_await _ _ _ _ hb, hd]
+          simp only [listLoop, pull_await _ _ _ _ _ hb, hd]
           simp only [show ((Item.val v == Item.endMarker) = false) from rfl, h1, values, hv]
           simp
 
@@ -225,7 +282,7 @@ theorem takeLoop_lt : ∀ (fuel : Nat) (rest : Body) (n i m pulled : Nat) (stopp
           refine ⟨lt', p', ?_, by simp only [dropValues, List.length_cons]; omega, h2⟩
           simp only [takeLoop, pull_value _ _ _ _ _ hb, hbt, h1, values, dropValues]
           simp
-      | await =>
+      | await bb =>
         have hl := drainRest_length_le r
         have hdv := dropValues_succ_await m r
         cases hd : drainItem r with
@@ -237,7 +294,7 @@ theorem takeLoop_lt : ∀ (fuel : Nat) (rest : Body) (n i m pulled : Nat) (stopp
           | succ f' =>
             refine ⟨some .internal, pulled + 1 + (r.length - (drainRest r).length), ?_,
               by simp only [dropValues, hdv, hr, List.length_cons, List.length_nil]; omega, blockedBy_internal futs⟩
-            simp only [takeLoop, pull_await _ _ _ _ hb, hd, hr] at ⊢
+            simp only [takeLoop, pull_await _ _ _ _ _ hb, hd, hr] at ⊢
             simp only [show ((Item.endMarker == Item.endMarker) = true) from rfl, values, hv, dropValues, hdv]
             simp [pull_nil _ _ _ _ (blockedBy_internal futs)]
         | val v =>
@@ -247,13 +304,13 @@ theorem takeLoop_lt : ∀ (fuel : Nat) (rest : Body) (n i m pulled : Nat) (stopp
           | zero =>
             refine ⟨some .internal, pulled + 1 + (r.length - (drainRest r).length), ?_,
               by simp only [dropValues, hdv, List.length_cons] at *; omega, blockedBy_internal futs⟩
-            simp only [takeLoop, pull_await _ _ _ _ hb, hd, hbt]
+            simp only [takeLoop, pull_await _ _ _ _ _ hb, hd, hbt]
             simp [values, hv, dropValues, hdv]
           | succ k =>
             obtain ⟨lt', p', h1, hp, h2⟩ := ih (drainRest r) n (i + 1) k (pulled + 1 + (r.length - (drainRest r).length))
               false (some .internal) futs (ret ++ [.val v]) (by omega) (blockedBy_internal futs) (by simp) (by omega)
             refine ⟨lt', p', ?_, by simp only [dropValues, hdv, List.length_cons] at *; omega, h2⟩
-            simp only [takeLoop, pull_await _ _ _ _ hb, hd, hbt]
+            simp only [takeLoop, pull_await _ _ _ _ _ hb, hd, hbt]
             simp only [show ((Item.val v == Item.endMarker) = false) from rfl, h1, values, hv, dropValues, hdv]
             simp
 
@@ -294,7 +351,7 @@ theorem next_blocked (s : St) (hb : s.blocked = true) : next s = (s, .raised .ru
 
 def Fut.known : Fut → Option Item
   | .const v => some (.val v)
-  | .pending => none
+  | .pending _ => none
   | .done r => some r
 
 /-- the reference cursor mirrors the generator; at most the task in `last_task` is uncomputed -/
@@ -304,21 +361,21 @@ structure Rel (total : Nat) (w : Watch) (s : St) : Prop where
   known : w.known = s.futs.map Fut.known
   pos : s.pulled + s.rest.length = total
   wf : s.stopped = true → s.rest = []
-  last : ∀ k, s.futs[k]? = some .pending → s.lastTask = some (.handle k)
+  last : ∀ k b, s.futs[k]? = some (.pending b) → s.lastTask = some (.handle k)
 
 theorem rel_init (b : Body) : Rel b.length (watchInit b) (init b) := by
   constructor <;> simp [watchInit, init]
 
 theorem noPending_of_unblocked (lt : Option LastRef) (futs : List Fut)
-    (hl : ∀ k, futs[k]? = some .pending → lt = some (.handle k)) (hb : blockedBy lt futs = false) :
-    ∀ k : Nat, futs[k]? ≠ some Fut.pending := by
-  intro k hk
-  have := hl k hk
+    (hl : ∀ k b, futs[k]? = some (.pending b) → lt = some (.handle k)) (hb : blockedBy lt futs = false) :
+    ∀ (k : Nat) (b : Bool), futs[k]? ≠ some (Fut.pending b) := by
+  intro k b hk
+  have := hl k b hk
   subst this
   simp [blockedBy, hk] at hb
 
 theorem watch_blocked_eq (lt : Option LastRef) (futs : List Fut)
-    (hl : ∀ k, futs[k]? = some .pending → lt = some (.handle k)) :
+    (hl : ∀ k b, futs[k]? = some (.pending b) → lt = some (.handle k)) :
     (futs.map Fut.known).any (· == none) = blockedBy lt futs := by
   cases hb : blockedBy lt futs with
   | false =>
@@ -328,15 +385,18 @@ theorem watch_blocked_eq (lt : Option LastRef) (futs : List Fut)
     simp only [List.any_eq_true, List.mem_map] at h
     obtain ⟨x, ⟨f, hf, hx⟩, hx2⟩ := h
     obtain ⟨k, hk⟩ := List.getElem?_of_mem hf
-    cases f <;> simp_all [Fut.known]
+    cases f with
+    | pending b => exact hn k b hk
+    | const v => simp [Fut.known] at hx; simp [← hx] at hx2
+    | done r => simp [Fut.known] at hx; simp [← hx] at hx2
   | true =>
     simp only [blockedBy] at hb
     split at hb
     · rename_i k
       split at hb
-      · rename_i hk
+      · rename_i b hk
         simp only [List.any_eq_true, List.mem_map]
-        exact ⟨none, ⟨.pending, List.mem_of_getElem? hk, rfl⟩, rfl⟩
+        exact ⟨none, ⟨.pending b, List.mem_of_getElem? hk, rfl⟩, rfl⟩
       · simp at hb
     · simp at hb
 
@@ -349,7 +409,7 @@ theorem dropValues_of_short (b : Body) : ∀ n, (values b).length < n → dropVa
     | zero => omega
     | succ m =>
       cases x with
-      | await => simp only [dropValues, values] at hn ⊢; exact ih (m + 1) hn
+      | await bb => simp only [dropValues, values] at hn ⊢; exact ih (m + 1) hn
       | value v => simp only [dropValues, values, List.length_cons] at hn ⊢; exact ih m (by omega)
 
 /-- a list of Values does not contain END_OF_GENERATOR -/
@@ -367,7 +427,7 @@ theorem values_dropValues (b : Body) : ∀ n, values (dropValues n b) = (values 
     | zero => simp [dropValues]
     | succ m =>
       cases x with
-      | await => simp only [dropValues, values]; exact ih (m + 1)
+      | await bb => simp only [dropValues, values]; exact ih (m + 1)
       | value v => simp only [dropValues, values, List.drop_succ_cons]; exact ih m
 
 /-- the state `take_first(gen, n)` leaves behind is again one from which the loops can be described -/
